@@ -688,6 +688,12 @@ def render_roundtrip(msgs):
             L.append(f"  refine ({lemma} hc {law} {tag} (by omega)\n    {lens}\n"
                      f"    (fun _ _ => rfl){extra} _ m.{f} _{hget} w{i}).trans ?_")
         L.append("  exact run_done _ _ _ (by cases m; rfl)")
+        if m["root"]:
+            L.append(f"theorem {X}.decode_encode (m : {X}) (h : m.WF) : {X}.decode ({X}.encode m) = some m :=")
+            L.append(f"  {X}.roundtrip recursionLimit (by decide) m h")
+        else:
+            L.append(f"theorem {X}.decode_encode (depth : Nat) (hd : {X}.nest ≤ depth) (m : {X}) (h : m.WF) :")
+            L.append(f"    {X}.decode depth ({X}.encode m) = some m := {X}.roundtrip depth hd m h")
         L.append("")
     L += ["end Litep2pVerif.Wire", ""]
     return "\n".join(L)
